@@ -62,7 +62,13 @@ class SupportRemoteGetStateMeta(type):
                 has_remote = False
                 break
             if d.get('__getstate__'):
-                signature = inspect.signature(d.get('__getstate__'))
+                try:
+                    signature = inspect.signature(d.get('__getstate__'))
+                except (ValueError, TypeError):
+                    # a __getstate__ implemented in C (e.g. io.BytesIO) has no introspectable signature - it cannot take "remote"
+                    allow_remote = False
+                    first_not_remote = base
+                    continue
                 param_names = [param.name for param in signature.parameters.values()]
                 param_kinds = [param.kind for param in signature.parameters.values()]
 
